@@ -169,7 +169,19 @@ def check_compute(fx, R, cq, cname, f):
     flip = ('flipNormalTowardOriginCoordinate', ('[]', 'points', n), ('[]', 'normals', n))
     writes = [i for i, s in enumerate(body) if writes_normal(s, n)]
     flips = [i for i, s in enumerate(body) if s == flip]
-    if nested:
+    # the flip helper may also be handed the eigenvector matrix itself: it then orients the vector BEFORE it is copied into normals[n]
+    src_flips = [i for i, s in enumerate(body) if isinstance(s, tuple) and s and s[0] == 'flipNormalTowardOriginCoordinate' and len(s) == 3 and s[1] == ('[]', 'points', n)
+                 and 'this.eigenVectors_' in str(s[2]) and 'normals' not in str(s[2])]
+    if src_flips and not flips and writes and not nested:
+        est = [i for i, s in enumerate(body) if s == plane]
+        ok_order = est and max(est) < min(src_flips) and max(src_flips) < min(writes)
+        if ok_order:
+            R.holds('N1', inst + ':flip', 'the eigenvector is oriented (flip on eigenVectors_) after the plane estimate and before it is copied into the normal', loc, 'E-STATE')
+        else:
+            R.violated('N1', '%s::%s:flip-order' % (short_fn(cq.split('<')[0]), 'compute/' + str(len(names)) + 'args'), 'in %s the flip acts on eigenVectors_ (statement %d) but the normal is copied out of eigenVectors_ at '
+                       'statement %d, BEFORE it: the flip has no effect on the normal that is returned, which keeps whatever sign the eigen-solver produced - it can point away from the sensor (statements: %s)' % (
+                           inst, max(src_flips), min(writes), [s[0] if isinstance(s, tuple) else s for s in body]), loc, 'E-STATE')
+    elif nested:
         R.undecided('N1', inst + ':flip', 'conditional statements inside the per-point loop')
     elif not writes:
         R.undecided('N1', inst + ':flip', 'no write of normals[n] recognised: %s' % (body,))
@@ -344,6 +356,12 @@ def check_plane(fx, R, cq, cname, f):
                 R.undecided('N8', inst + ':shortcut', 'returns before the eigen-decomposition when `%s`; whether that condition is exact for the inputs of the quantifier is not decided' % ctext)
         if not exits:
             R.holds('N8', inst + ':shortcut', 'no return before eigenSolver_.compute(...)', loc, 'E-STATE')
+    direct = [s for s in st if s[0] == 'expr' and isinstance(s[1], tuple) and s[1][:2] == ('.computeDirect', 'this.eigenSolver_')]
+    if direct:
+        R.violated('N3', short_fn(cq.split('<')[0]) + '::planeEstimation_:closed-form-solver', 'the eigen-decomposition uses SelfAdjointEigenSolver::computeDirect, Eigen\'s closed-form (trigonometric) solver for 2x2 / 3x3 '
+                   'matrices; its documentation states that it is faster but NOT as accurate as the iterative compute() when eigenvalues are close or differ by orders of magnitude - eigenvector errors grow like '
+                   'eps / (relative gap)^2.  The quantifier has neighbourhoods with a relative eigen-gap down to 1e-6 (elongated strips, adjacent scan lines); there the normal of an exactly planar cloud is off by '
+                   'up to degrees in float and the curvature is no longer zero to rounding [%s]' % cname, fx.rel(f['loc']), 'E-INT')
     eigs = [s for s in st if s[0] == 'expr' and isinstance(s[1], tuple) and s[1][:2] == ('.compute', 'this.eigenSolver_')]
     vals = ('expr', ('=', 'this.eigenValues_', ('.eigenvalues', 'this.eigenSolver_')))
     vecs = ('expr', ('=', 'this.eigenVectors_', ('.eigenvectors', 'this.eigenSolver_')))
